@@ -58,3 +58,42 @@ func (sq *Queue) VerifGetHeadRoom() *resources.Resource { return sq.getHeadRoom(
 func (sq *Queue) VerifGetMaxHeadRoom() *resources.Resource { return sq.getMaxHeadRoom() }
 
 func (sq *Queue) VerifMaxResourceRaw() *resources.Resource { return sq.cloneMaxResource() }
+
+// VerifTimers reports whether the placeholder timer and the state timer are armed.
+func (sa *Application) VerifTimers() (bool, bool) {
+	sa.RLock()
+	defer sa.RUnlock()
+	return sa.placeholderTimer != nil, sa.stateTimer != nil
+}
+
+// VerifFirePlaceholderTimer runs the placeholder timeout now if the timer is armed.
+func (sa *Application) VerifFirePlaceholderTimer() bool {
+	sa.Lock()
+	t := sa.placeholderTimer
+	sa.Unlock()
+	if t == nil {
+		return false
+	}
+	t.Stop()
+	sa.timeoutPlaceholderProcessing()
+	return true
+}
+
+// VerifFireStateTimer runs the state timer callback now if the timer is armed: CompleteApplication for the
+// Completing state, ExpireApplication for the terminated states (the only two users of the state timer).
+func (sa *Application) VerifFireStateTimer() bool {
+	sa.Lock()
+	t := sa.stateTimer
+	state := sa.stateMachine.Current()
+	sa.Unlock()
+	if t == nil {
+		return false
+	}
+	t.Stop()
+	ev := ExpireApplication
+	if state == Completing.String() {
+		ev = CompleteApplication
+	}
+	sa.timeoutStateTimer(state, ev)()
+	return true
+}
